@@ -69,10 +69,10 @@ func (r Int16) MAX(a, b Int16) Scalar {
 }
 /* -------------------------------------------------------------------------- */
 func (c Int16) ABS(a Int16) Scalar {
-  if c.Sign() == -1 {
-    c.NEG(a)
-  } else {
-    c.SET(a)
+  switch a.Sign() {
+  case -1: c.NEG(a)
+  case  0: c.Reset()
+  case  1: c.SET(a)
   }
   return c
 }
